@@ -38,7 +38,10 @@ Record case := mkcase {
                                      that JSON body, any method); and (bytes entry point, reader entry point) on the same content: UnmarshalJsonBytes vs
                                      UnmarshalJsonReader, UnmarshalYamlBytes vs UnmarshalYamlReader; also the empty and the
                                      blank document, an already drained reader, a one-byte-at-a-time reader *)
-  c_direct : option (direct * obs) (* httpx.Parse called on a constructed request (GET query / POST form / header map) *)
+  c_direct : option (direct * obs); (* httpx.Parse called on a constructed request (GET query / POST form / header map) *)
+  c_env : option (ty * fopts * string * obs)
+                                  (* a one-member struct whose member carries env=NAME (with these other options), the value of
+                                     that environment variable, and the outcome of unmarshalling {} *)
 }.
 
 Definition res_matches (r : result val) (o : obs) : bool :=
@@ -81,7 +84,7 @@ Fixpoint force_string (t : ty) : ty :=
   | Struct fs => Struct (map (fun f =>
       let o := f_opts f in
       let o' := match deref (f_ty f) with
-                | Prim _ => mkopts (o_optional o) (o_default o) (o_options o) (o_range o) true (o_dep o)
+                | Prim _ => mkopts (o_optional o) (o_default o) (o_options o) (o_range o) true (o_dep o) (o_inherit o)
                 | _ => o end in
       mkfield (f_key f) o' (f_anon f) (force_string (f_ty f))) fs)
   end.
@@ -110,13 +113,16 @@ Definition direct_ty (d : direct) : ty := force_string (match d with DForm t _ |
 Definition direct_doc (d : direct) : jv := match d with DForm _ p => form_doc p | DHeader _ p => header_doc p end.
 
 (* --- the transcription reproduces what the Go code did --- *)
+(* `inherit` members are resolved first (Model.inherit_doc); the identity when no member is tagged inherit *)
+Definition eff_doc (t : ty) (d : jv) : jv := if has_inherit t then inherit_doc t [] d else d.
+
 Definition model_ok (c : case) : bool :=
   let n := fuel_of (c_ty c) in
   if c_outside c then true else
-  res_matches (unmarshal n (c_ty c) (c_doc c)) (c_obs c) &&
+  res_matches (unmarshal n (c_ty c) (eff_doc (c_ty c) (c_doc c))) (c_obs c) &&
   match c_yaml c with
   | None => true
-  | Some (y, o) => res_matches (unmarshal n (c_ty c) (yaml_to_json y)) o
+  | Some (y, o) => res_matches (unmarshal n (c_ty c) (eff_doc (c_ty c) (yaml_to_json y))) o
   end &&
   match c_conf c with
   | None => true
@@ -145,6 +151,10 @@ Definition model_ok (c : case) : bool :=
       | Ok v, OOk w => val_eqb (norm_nil v) (norm_nil w)
       | _, _ => res_matches r o
       end
+  end &&
+  match c_env c with
+  | None => true
+  | Some (t, o, ev, ob) => res_matches (bind (env_value t o ev) (fun v => Ok (VStruct [v]))) ob
   end.
 
 Definition obs_eqb (a b : obs) : bool :=
@@ -182,9 +192,23 @@ Definition conf_same (orig o : obs) : bool :=
   | _, _ => true
   end.
 
+(* env=: the environment value stands for the document's value: exactly one of options=, inside range=, exact *)
+Definition env_ok (t : ty) (o : fopts) (ev : string) (ob : obs) : bool :=
+  match ob with
+  | OPanic => false
+  | OErr => true
+  | OOk (VStruct [w]) =>
+      in_options o ev && value_in_range o w &&
+      match deref t, unwrap t w with
+      | Prim k, Some w' => leaf_agrees k (JStr ev None) w'
+      | _, _ => false
+      end
+  | OOk _ => false
+  end.
+
 Definition spec_ok_t (tol : tolerance) (c : case) : bool :=
   if c_outside c then match c_obs c with OPanic => false | _ => true end else
-  obs_ok tol (c_ty c) (c_doc c) (c_obs c) &&
+  obs_ok tol (c_ty c) (eff_doc (c_ty c) (c_doc c)) (c_obs c) &&
   (if all_optional_absent (c_ty c) (c_doc c) then match c_obs c with OOk _ => true | _ => false end else true) &&
   match c_yaml c with
   | None => true
@@ -221,7 +245,8 @@ Definition spec_ok_t (tol : tolerance) (c : case) : bool :=
       if has_nil_list p then match o with OPanic => false | _ => true end
       else obs_ok tol (direct_ty (DHeader t p)) (header_doc p) o
   | Some (d, o) => obs_ok tol (direct_ty d) (direct_doc d) o
-  end.
+  end &&
+  match c_env c with None => true | Some (t, o, ev, ob) => env_ok t o ev ob end.
 
 (* the property *)
 Definition spec_ok (c : case) : bool := spec_ok_t TNone c.
